@@ -256,6 +256,8 @@ class Unit:
             # N6: restricted visibility on a type declaration is widened to `pub` (Verus derives `open` accessor spec functions for
             # datatypes, which must be `pub`; visibility has no run-time meaning)
             text = re.sub(r"(?m)^(\s*)pub\((crate|super)\)\s+(struct|enum)\b", r"\1pub \3", text, count=1)
+            # ... and so is restricted visibility of its fields (a `pub open spec fn` may only read `pub` fields)
+            text = re.sub(r"(?m)^(\s*)pub\((crate|super)\)\s+(\w+\s*:)", r"\1pub \3", text)
         derives = re.search(r"#\[derive\(([^)]*)\)\]", text)
         dl = [x.strip() for x in derives.group(1).split(",")] if derives else []
         if kind == "const" and it.get("static_lifetime"):
